@@ -12,10 +12,13 @@ import Uquic.Model.FlowInit
 open Uquic.Oracle Uquic.Model.FlowInit
 
 structure SndG where
+  kind : String := ""           -- lb / lu / pb: which of the peer's parameters is this stream's initial limit
   credit : Int := 0
   credits : List Int := []      -- every value the limit ever had
   newEnd : Int := 0             -- highest offset+len in any STREAM frame
   blockedAt : List Int := []
+  discarded : Bool := false     -- the stream was discarded by a 0-RTT rejection: the server never saw it
+  cancelled : Bool := false     -- CancelWrite was called or STOP_SENDING arrived: a RESET_STREAM is to be expected
 
 structure RcvG where
   adv : Int := 0                -- what the peer was told: advertised limit for this kind of stream, then every non-zero MAX_STREAM_DATA sent
@@ -42,6 +45,10 @@ structure G where
   client : Bool := false
   peer : Params := {}
   cfg : Config := ⟨0, 0, 0, 0⟩
+  advP : Option Params := none   -- a plain connection: the transport parameters its constructor handed to the TLS stack
+  traced : Bool := false         -- qlog on: handleFrames keeps parsing a packet after an error
+  zero : Bool := false           -- a resuming client before the server's transport parameters arrive (0-RTT)
+  rejected : Bool := false
 
 abbrev Fail := String × String × String
 def fail (n d : String) : Fail := (n, "-", d)
@@ -124,45 +131,81 @@ def packToken (g : G) (tok : String) : G × List Fail × List String :=
       -- the final size of a stream is flow-control credit consumed (RFC 9000 §4.5): a receiver enforcing its limits
       -- (ours does: UpdateHighestReceived(finalSize, true)) answers a final size beyond them with FLOW_CONTROL_ERROR.
       -- Listed finding: RESET_STREAM_AT promising reliable data that was written but could not yet be sent.
-      let cls := if rel > 0 && fin = rel && s.newEnd ≤ s.credit then "reset_final_size_beyond_credit" else "-"
+      -- Listed finding: a RESET_STREAM queued on a stream before the 0-RTT rejection that discarded the stream is still
+      -- sent afterwards; its final size is charged by the server against the NEW limits, while this endpoint has
+      -- forgotten the bytes (connection-level bytesSent was reset).
+      -- (stream ids are used again after a rejection: the stale frame may carry the id of a NEW stream that was never reset)
+      let cls := if s.discarded || (g.rejected && !s.cancelled) then "stale_reset_after_0rtt_rejection"
+        else if rel > 0 && fin = rel && s.newEnd ≤ s.credit then "reset_final_size_beyond_credit" else "-"
       let f := if fin > s.credit then
         [("sender_within_credit", cls, s!"stream {i}: RESET_STREAM final size {fin} (reliable size {rel}) but the largest MAX_STREAM_DATA seen is {s.credit} ({s.newEnd} bytes sent)")] else []
       (g, f, [if rel = 0 then "pack:reset-stream" else "pack:reset-stream-at",
-               if fin > s.credit then "pack:reset-final-size-beyond-credit" else "pack:reset-final-size-within-credit"])
-  | "MD" :: _ => (g, [], ["pack:max-data"])
+               if fin > s.credit then "pack:reset-final-size-beyond-credit" else "pack:reset-final-size-within-credit"] ++
+               (if s.discarded then ["pack:reset-of-discarded-stream"] else []))
+  | ["MD", v] =>
+    -- (an older MAX_DATA may still be queued behind a newer one: the largest value sent is what binds)
+    let v := intOf v
+    let tot := sumI (g.rcv.map (·.credited))
+    let f2 := if !g.dead && v > tot + g.cMaxws then
+      [fail "advertised_honest" s!"connection: MAX_DATA {v} > consumed {tot} + maximum window {g.cMaxws}"] else []
+    ({ g with cAdv := max g.cAdv v }, f2, ["pack:max-data"])
   | _ => (g, [], [])
 
+/-- checks that hold after every operation, on the connection controller's dump -/
+def dumpChecks (g' : G) (impl : String) : List Fail :=
+  if !g'.started then [] else
+  (match dumpField impl 0 with
+   | some bs =>
+     let tot := sumI (g'.snd.map (·.newEnd))
+     if bs ≠ tot then [fail "sender_accounting" s!"connection bytesSent={bs} but STREAM frames carried {tot} new bytes"] else []
+   | none => []) ++
+  (match dumpField impl 3 with
+   | some br =>
+     let tot := sumI (g'.rcv.map (·.credited))
+     if !g'.dead && br ≠ tot then [fail "credit_conserved" s!"connection bytesRead={br} but bytes consumed or abandoned on the streams={tot}"] else []
+   | none => [])
+
+def advOf (res : List String) : Option Params :=
+  (res.findSome? fun x => if x.startsWith "adv=" then some (x.drop 4).toString else none).map fun t =>
+    let l := (t.splitOn ",").map intOf
+    { maxData := l.getD 0 0, bidiLocal := l.getD 1 0, bidiRemote := l.getD 2 0, uni := l.getD 3 0 }
+
+/-- the tokens of a `pack` / `send` result -/
+def packTokens (g : G) (res : List String) : G × List Fail × List String :=
+  res.foldl (fun (acc : G × List Fail × List String) tok =>
+    let (g1, f1, t1) := packToken acc.1 tok
+    (g1, acc.2.1 ++ f1, acc.2.2 ++ t1)) (g, [], [])
+
 def stepCore (g : G) (op impl : String) : G × StepOut :=
-  let w := words op
+  let w0 := words op
+  let traced := w0.getLast? == some "t"
+  let w := if traced then w0.dropLast else w0
   let res := words ((impl.splitOn " | ").headD "")
   let echo (g' : G) (tags : List String) (fails : List Fail) : G × StepOut :=
-    -- checks that hold after every operation, on the connection controller's dump
-    let extra : List Fail :=
-      if !g'.started || res == ["skip"] then [] else
-      (match dumpField impl 0 with
-       | some bs =>
-         let tot := sumI (g'.snd.map (·.newEnd))
-         if bs ≠ tot then [fail "sender_accounting" s!"connection bytesSent={bs} but STREAM frames carried {tot} new bytes"] else []
-       | none => []) ++
-      (match dumpField impl 3 with
-       | some br =>
-         let tot := sumI (g'.rcv.map (·.credited))
-         if !g'.dead && br ≠ tot then [fail "credit_conserved" s!"connection bytesRead={br} but bytes consumed or abandoned on the streams={tot}"] else []
-       | none => [])
+    let extra : List Fail := if res == ["skip"] then [] else dumpChecks g' impl
     (g', { model := impl, tags := tags, fails := fails ++ extra })
   if res == ["skip"] then (g, { model := impl }) else
   match w with
-  | ["init", persp, crw, cmax, srw, smax, pmd, pbl, pbr, pu] =>
+  | [ini, persp, crw, cmax, srw, smax, pmd, pbl, pbr, pu] =>
+    if ini != "init" && ini != "init0c" then (g, { model := impl }) else
+    if res.headD "" != "ok" then echo g ["init:error"] [] else
+    let zero := ini == "init0c"
     let peer : Params := { maxData := intOf pmd, bidiLocal := intOf pbl, bidiRemote := intOf pbr, uni := intOf pu }
-    echo { g with started := true, client := persp == "c", peer := peer,
+    -- what the constructor told the TLS stack to advertise (absent in traces of earlier rounds: the configured windows)
+    let adv : Params := (advOf res).getD { maxData := intOf crw, bidiLocal := intOf srw, bidiRemote := intOf srw, uni := intOf srw }
+    let f0 := match dumpField impl 5 with
+      | some rw => if rw ≠ adv.maxData then
+          [fail "initial_windows_match_parameters" s!"connection receive window {rw}, but initial_max_data {adv.maxData} is what the peer is told (configured {crw})"] else []
+      | none => []
+    echo { g with started := true, client := persp == "c", peer := peer, advP := some adv, traced := traced, zero := zero,
                   cfg := ⟨intOf srw, intOf smax, intOf crw, intOf cmax⟩,
-                  cAdv := intOf crw, cMaxws := max (intOf crw) (intOf cmax),
-                  cCredit := peer.maxData, cCredits := [peer.maxData] } ["init"] []
+                  cAdv := adv.maxData, cMaxws := max (max (intOf crw) (intOf cmax)) adv.maxData,
+                  cCredit := peer.maxData, cCredits := [peer.maxData] }
+      ([if zero then "init:0rtt" else "init"] ++ (if traced then ["init:traced"] else [])) f0
   | ["uinit", _base, crw, cmax, srw, smax, _, _, _, _, pmd, pbl, pbr, pu] =>
     if res.headD "" != "ok" then echo g ["uinit:error"] [] else
     let peer : Params := { maxData := intOf pmd, bidiLocal := intOf pbl, bidiRemote := intOf pbr, uni := intOf pu }
-    let advL := (((res.findSome? fun x => if x.startsWith "adv=" then some (x.drop 4).toString else none).getD "").splitOn ",").map intOf
-    let adv : Params := { maxData := advL.getD 0 0, bidiLocal := advL.getD 1 0, bidiRemote := advL.getD 2 0, uni := advL.getD 3 0 }
+    let adv : Params := (advOf res).getD {}
     let cfg : Config := ⟨intOf srw, intOf smax, intOf crw, intOf cmax⟩
     -- the connection window the implementation shows must be exactly what was advertised
     let hiC := adv.maxData
@@ -170,10 +213,10 @@ def stepCore (g : G) (op impl : String) : G × StepOut :=
       | some rw => if rw ≠ adv.maxData then
           [fail "initial_windows_match_parameters" s!"spec-driven client: connection receive window {rw}, advertised initial_max_data {adv.maxData}, configured {cfg.initialConnectionReceiveWindow}"] else []
       | none => []
-    echo { g with started := true, client := true, peer := peer, cfg := cfg, spec := some adv,
+    echo { g with started := true, client := true, peer := peer, cfg := cfg, spec := some adv, traced := traced,
                   cAdv := adv.maxData,
                   cMaxws := max hiC (max (intOf cmax) hiC),
-                  cCredit := peer.maxData, cCredits := [peer.maxData] } ["uinit"] f0
+                  cCredit := peer.maxData, cCredits := [peer.maxData] } (["uinit"] ++ (if traced then ["init:traced"] else [])) f0
   | ["open", kind] =>
     if res.headD "" == "E:other" then echo g ["open:error"] [] else
     let fld (k : String) : String := (res.findSome? fun x => if x.startsWith k then some (x.drop k.length).toString else none).getD "-"
@@ -186,12 +229,12 @@ def stepCore (g : G) (op impl : String) : G × StepOut :=
     -- receive side: the parameter WE advertised for this kind of stream (a plain connection advertises the
     -- configured window for all kinds; a spec-driven client advertises what its QUICSpec says)
     let ecfg := enforcedConfig g.cfg g.spec
-    let wantRw : Int := match g.spec with
+    let wantRw : Int := match g.spec.orElse (fun _ => g.advP) with
       | none => g.cfg.initialStreamReceiveWindow
       | some a => match kind with
         | "lb" => a.bidiLocal | "pb" => a.bidiRemote | _ => a.uni
     -- the largest window the auto-tuner may ever reach (a spec-driven client: the configured maximum or any advertised window)
-    let hiRw : Int := match g.spec with
+    let hiRw : Int := match g.spec.orElse (fun _ => g.advP) with
       | none => g.cfg.initialStreamReceiveWindow
       | some a => max g.cfg.initialStreamReceiveWindow (max a.bidiLocal (max a.bidiRemote a.uni))
     -- ... and the model of the closure (from the stream id the implementation chose)
@@ -205,16 +248,21 @@ def stepCore (g : G) (op impl : String) : G × StepOut :=
     let gotRw := intOf (fld "rw=")
     let f2 := if hasRecv && gotRw ≠ wantRw then
       [fail "initial_windows_match_parameters" s!"open {kind} (stream {id}): initial receive window {fld "rw="}, but {wantRw} was advertised for this kind of stream"] else []
-    let g1 := if hasSend then { g with snd := g.snd ++ [{ credit := wantSw, credits := [wantSw] }] } else g
+    let g1 := if hasSend then { g with snd := g.snd ++ [{ kind := kind, credit := wantSw, credits := [wantSw] }] } else g
     let g2 := if hasRecv then { g1 with rcv := g1.rcv ++ [{ adv := wantRw, maxws := max hiRw (max g.cfg.maxStreamReceiveWindow hiRw) }] } else g1
     let model := " ".intercalate (res.map fun x =>
       if x.startsWith "sw=" && hasSend then s!"sw={mSw}" else if x.startsWith "rw=" && hasRecv then s!"rw={mRw}" else x)
     let (g3, out) := echo g2 [s!"open:{kind}"] (f0 ++ f1 ++ f2)
     (g3, { out with model := model ++ (match impl.splitOn " | " with | _ :: d :: _ => " | " ++ d | _ => "") })
-  | ["w", _, _] => echo g [if res == ["started"] then "write:blocking" else "write:buffered"] []
+  | ["w", _, _] => echo g [if res == ["started"] then "write:blocking" else if res.contains "E:other" then "write:cut-short" else "write:buffered"] []
   | ["close", _] => echo g ["close"] []
   | ["rb", _] => echo g ["reliable-boundary"] []
-  | ["cw", _] => echo g ["cancel-write"] []
+  | ["cw", i] =>
+    let i := natOf i
+    echo { g with snd := match g.snd[i]? with | some s => g.snd.set i { s with cancelled := true } | none => g.snd } ["cancel-write"] []
+  | ["stop", i] =>
+    let i := natOf i
+    echo { g with snd := match g.snd[i]? with | some s => g.snd.set i { s with cancelled := true } | none => g.snd } ["stop-sending"] []
   | ["smax", i, v] =>
     let i := natOf i; let v := intOf v
     match g.snd[i]? with
@@ -225,19 +273,6 @@ def stepCore (g : G) (op impl : String) : G × StepOut :=
   | ["cmax", v] =>
     let c := max g.cCredit (intOf v)
     echo { g with cCredit := c, cCredits := c :: g.cCredits } [if intOf v > g.cCredit then "cmax:raise" else "cmax:stale"] []
-  | ["pack", _, _] =>
-    let (g', fails, tags) := res.foldl (fun (acc : G × List Fail × List String) tok =>
-      let (g1, f1, t1) := packToken acc.1 tok
-      (g1, acc.2.1 ++ f1, acc.2.2 ++ t1)) (g, [], [])
-    -- no stall: a receive stream whose application has consumed everything the peer was told it may send has a
-    -- MAX_STREAM_DATA queued (ReceiveStream.readImpl → flowController.AddBytesRead → hasWindowUpdate); stream control
-    -- frames are packed first, so a full-size packet (10 streams × at most 4 control frames of ≤ 25 bytes) carries it
-    let big := decide (intOf ((words op).getD 1 "0") ≥ 1200)
-    let stall : List Fail := if !big || g'.dead then [] else
-      (g'.rcv.zipIdx.filter (fun (r, _) => r.updDue)).map fun (r, j) =>
-        fail "no_stall" s!"receive stream {j}: the application has consumed all {r.appRead} bytes the peer was told it may send (limit {r.adv}), but no MAX_STREAM_DATA is in the next full-size packet: the peer is blocked for good"
-    let g'' := if big then { g' with rcv := g'.rcv.map fun r => { r with updDue := false } } else g'
-    echo g'' (if tags.isEmpty then ["pack:empty"] else tags) (fails ++ stall)
   | ["lost", _] => echo g ["lost"] []
   | ["acked", _] => echo g ["acked"] []
   | ["frame", j, off, len, fin, _] =>
@@ -311,7 +346,116 @@ def stepCore (g : G) (op impl : String) : G × StepOut :=
     let f2 := if !g.dead && v > tot + g.cMaxws then
       [fail "advertised_honest" s!"connection: MAX_DATA {v} > consumed {tot} + maximum window {g.cMaxws}"] else []
     echo { g with cAdv := max g.cAdv v } ["cupd:update"] (f1 ++ f2)
+  | ["poison", _] => echo g ["poison"] []
+  | ["rdl", _, v] => echo g [if v == "1" then "read-deadline:past" else "read-deadline:none"] []
+  | ["wdl", _, v] => echo g [if v == "1" then "write-deadline:past" else "write-deadline:none"] []
+  | ["reject", _] =>
+    -- 0-RTT rejected: every stream is discarded, nothing that was sent counts any more, and no remembered limit survives
+    echo { g with rejected := true, cCredit := 0, cCredits := [0], cBlockedAt := [],
+                  peer := {},
+                  snd := g.snd.map fun s => { s with credit := 0, credits := [0], newEnd := 0, blockedAt := [], discarded := true } }
+      [if res.headD "" == "ok" then "reject:ok" else "reject:error"]
+      (if res.headD "" == "ok" then [] else [fail "zero_rtt_reset" s!"dropping the 0-RTT state failed ({res.headD ""}) although nothing was received"])
+  | ["params", pmd, pbl, pbr, pu] =>
+    if res.headD "" != "ok" then echo { g with zero := false, dead := true } ["params:error"] [] else
+    let peer : Params := { maxData := intOf pmd, bidiLocal := intOf pbl, bidiRemote := intOf pbr, uni := intOf pu }
+    let c := max g.cCredit peer.maxData
+    -- streams that are still alive (0-RTT accepted) keep the larger of the remembered and the new limit
+    let snd := if g.rejected then g.snd else g.snd.map fun s =>
+      let v := if s.kind == "lb" then peer.bidiRemote else if s.kind == "lu" then peer.uni else s.credit
+      { s with credit := max s.credit v, credits := max s.credit v :: s.credits }
+    echo { g with zero := false, peer := peer, cCredit := c, cCredits := c :: g.cCredits, snd := snd }
+      [if g.rejected then "params:after-reject" else "params:0rtt-accepted"] []
+  | [pk, _, _] =>
+    if pk != "pack" && pk != "send" then (g, { model := impl }) else
+    -- `send`: the real Conn.sendPackets ran its MAX_DATA step first (GetWindowUpdate: from then on the new limit is the
+    -- one enforced, the dump shows it), then the payload was composed.  Once everything the peer was told it may send on
+    -- the connection has been consumed an update is due, and a full-size packet carries the MAX_DATA frame.
+    let isSend := pk == "send"
+    let big := decide (intOf ((words op).getD 1 "0") ≥ 1200)
+    let tot0 := sumI (g.rcv.map (·.credited))
+    let cAdv0 := g.cAdv
+    let newAdv : Int := if isSend then (dumpField impl 5).getD cAdv0 else cAdv0
+    let fUpd : List Fail := if !isSend || newAdv = cAdv0 then [] else
+      (if newAdv < cAdv0 then [fail "advertised_monotone" s!"connection: enforced limit {newAdv} after MAX_DATA {cAdv0}"] else []) ++
+      (if !g.dead && newAdv > tot0 + g.cMaxws then
+        [fail "advertised_honest" s!"connection: MAX_DATA {newAdv} > consumed {tot0} + maximum window {g.cMaxws}"] else [])
+    let cStall : List Fail :=
+      if isSend && !g.dead && decide (tot0 > 0) && decide (tot0 ≥ cAdv0) && decide (newAdv ≤ cAdv0) then
+        [fail "no_stall" s!"connection: all {tot0} bytes the peer was told it may send (MAX_DATA {cAdv0}) have been consumed, but sendPackets computed no window update: the peer is blocked for good"]
+      else if isSend && !g.dead && big && decide (newAdv > cAdv0) && !res.contains s!"MD:{newAdv}" then
+        [fail "no_stall" s!"connection: the limit was raised from {cAdv0} to {newAdv}, but the full-size packet sendPackets composed carries no MAX_DATA {newAdv}: the peer is not told"]
+      else []
+    let (g', fails, tags) := packTokens { g with cAdv := max cAdv0 newAdv } res
+    let wireFail : List Fail := (res.filter fun t => t.startsWith "X:frame").map fun t =>
+      fail "frames_as_sent" s!"the frames of this payload do not survive their own serialisation ({t}): the peer does not see the limits / offsets this endpoint accounts for"
+    let fails := fUpd ++ fails ++ cStall ++ wireFail ++ (if res.contains "X:send-error" then [fail "no_stall" "Conn.sendPackets returned an error"] else [])
+    let tags := tags ++ (if isSend then [if newAdv > cAdv0 then "send:max-data-due" else "send"] else [])
+    -- no stall: a receive stream whose application has consumed everything the peer was told it may send has a
+    -- MAX_STREAM_DATA queued (ReceiveStream.readImpl → flowController.AddBytesRead → hasWindowUpdate); stream control
+    -- frames are packed first, so a full-size packet (10 streams × at most 4 control frames of ≤ 25 bytes) carries it
+    let stall : List Fail := if !big || g'.dead then [] else
+      (g'.rcv.zipIdx.filter (fun (r, _) => r.updDue)).map fun (r, j) =>
+        fail "no_stall" s!"receive stream {j}: the application has consumed all {r.appRead} bytes the peer was told it may send (limit {r.adv}), but no MAX_STREAM_DATA is in the next full-size packet: the peer is blocked for good"
+    let g'' := if big then { g' with rcv := g'.rcv.map fun r => { r with updDue := false } } else g'
+    echo g'' (if tags.isEmpty then ["pack:empty"] else tags) (fails ++ stall)
   | _ => (g, { model := impl })
+
+/-- ONE packet through the real `handleShortHeaderPacket` → `handleFrames`: the frames are handled in order; the first one
+    that must be refused decides the packet's answer, whatever follows it in the packet, traced or not.  The expectation
+    for each frame comes from the ghost state only (the limits the peer was told). -/
+def stepPkt (g : G) (subs : List String) (impl : String) : G × StepOut :=
+  let res := words ((impl.splitOn " | ").headD "")
+  let got := res.headD ""
+  if got == "skip" then (g, { model := impl }) else
+  if g.dead then
+    -- after a connection error nothing is judged on the receiving side; credit frames still count for the sender
+    -- (if the packet was cut short the ghost credit is too large, which only makes the sender monitors more lenient)
+    let g' := subs.foldl (fun (g0 : G) x =>
+      match words x with
+      | "smax" :: _ | "cmax" :: _ | "stop" :: _ => (stepCore g0 x "ok").1
+      | _ => g0) g
+    (g', { model := impl, tags := ["pkt:after-error"], fails := dumpChecks g' impl }) else
+  let goneL : List Nat := (((res.findSome? fun x => if x.startsWith "gone=" then some (x.drop 5).toString else none).getD "-").splitOn ",").filterMap
+    fun t => if t == "-" then none else some (natOf t)
+  -- (state, expected error, index of the offending frame, tags)
+  let (g1, expected, tags) := subs.zipIdx.foldl (fun (acc : G × Option (String × Nat) × List String) x =>
+    let (g0, exp, tags) := acc
+    if exp.isSome then (g0, exp, tags) else
+    let w := words x.1
+    let judge (j : String) (e : Int) (fin isReset : Bool) : G × Option (String × Nat) × List String :=
+      if goneL.contains x.2 then (g0, none, tags ++ ["pkt:frame-for-deleted-stream"]) else
+      match g0.rcv[natOf j]? with
+      | none => (g0, none, tags)
+      | some r =>
+        let ex := recvExpect g0 r e fin isReset
+        if ex == "ok" then
+          let (g', o) := stepCore g0 x.1 "ok"
+          (g', none, tags ++ o.tags)
+        else (g0, some (ex, x.2), tags)
+    match w with
+    | ["frame", j, off, len, fin, _] => judge j (intOf off + intOf len) (fin == "1") false
+    | ["rst", j, fs, _, _] => judge j (intOf fs) true true
+    | "smax" :: _ | "cmax" :: _ | "stop" :: _ =>
+      let (g', o) := stepCore g0 x.1 "ok"
+      (g', none, tags ++ o.tags)
+    | _ => (g0, none, tags)) (g, none, [])
+  let want := (expected.map (·.1)).getD "ok"
+  let n := subs.length
+  let fails : List Fail :=
+    if got == want then [] else
+    if want == "ok" && got == "E:other" then [] else
+    match expected with
+    | some (e, i) => [fail "packet_first_violation_reported"
+        s!"a packet of {n} frames (qlog tracing {if g.traced then "on" else "off"}): frame {i} ({subs.getD i ""}) is beyond what the peer was told it may send and has to be answered with {e}, but the packet was answered with {got}"]
+    | none => [fail "packet_first_violation_reported"
+        s!"a packet of {n} frames (qlog tracing {if g.traced then "on" else "off"}) whose frames all stay within the announced limits was answered with {got}"]
+  let g2 := if got == "ok" && want == "ok" then g1 else { g1 with dead := true }
+  let tags := [s!"pkt:{got}", if g.traced then "pkt:traced" else "pkt:untraced"] ++
+    (match expected with
+     | some (_, i) => [if i + 1 < n then "pkt:violation-then-more-frames" else "pkt:violation-last"]
+     | none => [if n > 1 then "pkt:multi-frame" else "pkt:single-frame"]) ++ tags
+  (g2, { model := impl, tags := tags, fails := fails ++ dumpChecks g2 impl })
 
 /-- Reads started by `rdb` that have returned (` rdone:<rid>:<k>:<outcome>` at the end of a result): the bytes
     they consumed count as read by the application. -/
@@ -333,7 +477,14 @@ def step (g : G) (op impl : String) : G × StepOut :=
   let main := parts.headD ""
   let dump := match parts with | _ :: d :: _ => " | " ++ d | _ => ""
   let (g0, dtags) := applyDone g main
-  if op.startsWith "batch " then
+  if op.startsWith "pkt " || op.startsWith "pkt0 " then
+    let (g', o) := stepPkt g0 ((op.splitOn " ; ").drop 1) impl
+    (g', { o with tags := o.tags ++ dtags ++ (if op.startsWith "pkt0 " then ["pkt:0rtt-packet"] else []) })
+  else if op.startsWith "init0 " then
+    -- a resuming client: `init0 …` = `init c …` with the REMEMBERED parameters in the peer's place
+    let (g', o) := stepCore g0 ("init0c c " ++ (op.drop 6).toString) impl
+    (g', o)
+  else if op.startsWith "batch " then
     if main == "skip" then (g, { model := impl }) else
     let subs := (op.drop 6).toString.splitOn " ; "
     let ress := main.splitOn " ; "
